@@ -171,8 +171,44 @@ def seq_slice(ex, st, v, sl, node):
     return ty.SeqV(v.elem, [z3.Lambda([i], ty.sel(a, i + lo)) for a in v.arrs], hi - lo)
 
 
+class MaskedV:
+    """a[mask] for a boolean mask of the same length: the selected entries in order.  Kept symbolic (source, mask) so that the idiom
+    x[mask] = y[mask] becomes an elementwise conditional; materialised as an order-preserving selection when used as a sequence."""
+    __slots__ = ("src", "mask", "_seq")
+
+    def __init__(self, src, mask):
+        self.src, self.mask, self._seq = src, mask, None
+
+    def to_seq(self, ex, st):
+        if self._seq is None:
+            from . import seqlib
+            i = _i("mi")
+            self._seq = seqlib.filtered(ex, st, i, self.src.len, ty.sel(self.mask.arrs[0], i), self.src.elem, [ty.sel(a, i) for a in self.src.arrs], src_arrs=self.src.arrs)
+        return self._seq
+
+
 def seq_fancy(ex, st, cont, idx, node):
+    if isinstance(idx, ty.SeqV) and idx.elem is ty.Bool:
+        ex.safety(st, "shape(boolean mask)", idx.len == cont.len, node)
+        return MaskedV(cont, idx)
     raise _U("fancy index", node)
+
+
+def seq_mask_store(ex, st, cont, mask, val, node):
+    """a[mask] = v : entries where the mask is set are replaced - by the scalar v, or, for v = b[mask] (same mask), by the entries of b"""
+    ex.safety(st, "shape(boolean mask)", mask.len == cont.len, node)
+    t = _i("mt")
+    m = ty.sel(mask.arrs[0], t)
+    if isinstance(val, MaskedV):
+        if not (val.mask.arrs[0].eq(mask.arrs[0])):
+            raise _U("a[m1] = b[m2] with different masks", node)
+        ex.safety(st, "shape(boolean mask)", val.src.len == cont.len, node)
+        new = z3.Lambda([t], z3.If(m, ty.to_real(ty.sel(val.src.arrs[0], t)), ty.sel(cont.arrs[0], t)))
+    elif _isnum(val):
+        new = z3.Lambda([t], z3.If(m, _real(ex, st, val, node), ty.sel(cont.arrs[0], t)))
+    else:
+        raise _U(f"masked assignment of {val!r}", node)
+    return ty.SeqV(cont.elem, [new], cont.len)
 
 
 # ---------------------------------------------------------------------------- sums
